@@ -371,8 +371,13 @@ class C14(Check):
             stops = [r for r in ctx['reqs'] if r['op']['kind'] == 'stop']
             ends = [e[1] for e in ev if e[2] in ('inactive', 'finishing')]
             raced = text == 'stopping' and any(any(r['t0'] - 0.01 <= t <= r['t1'] + 0.01 for t in ends) for r in stops)
+            # the same unsynchronised stop, met while the cleanup sequence hands over to a waiting start: the
+            # transition worked out the busy status of that start, the stop replaced it meanwhile
+            handover = any(e[2] == 'to-idle' and e[3] == 'Start' and not e[4] for e in ev) and \
+                any(any(r['t0'] - 0.01 <= t <= r['t1'] + 0.01 for t in ends) for r in stops)
             if 300 <= code < 400:
-                res.append(Violation('C14.final-status-busy', 'stop-raced-finish' if raced else f'{code}',
+                res.append(Violation('C14.final-status-busy',
+                                     'stop-raced-finish' if raced else 'stop-raced-handover' if handover else f'{code}',
                                      f'machine inactive but status is {ctx["final_status"]}'))
             elif raced:
                 res.append(Violation('C14.wrong-final-status', 'stop-raced-finish',
